@@ -556,3 +556,24 @@ func hSymLabel(fam int, tag string, concreteOnly bool) hLabel {
 	}
 	return l
 }
+
+var hIota = [10]int{0, 1, 2, 3, 4, 5, 6, 7, 8, 9}
+
+// hPick is vnChoice made concrete (forks over the k values in increasing order).
+func hPick(name string, k int, idx ...int) int { return hIota[vnChoice(name, k, idx...)] }
+
+// hUnambiguous: no type-only label shares its type with another label of the
+// list (otherwise the resolver may legitimately feed it that other value).
+func hUnambiguous(ls []hLabel) bool {
+	for i := range ls {
+		if ls[i].Name != "" {
+			continue
+		}
+		for j := range ls {
+			if i != j && ls[j].T == ls[i].T {
+				return false
+			}
+		}
+	}
+	return true
+}
